@@ -5,7 +5,7 @@
 //! reads, invalid values, data races on the histories the simulator generates.
 
 use futures_intrusive::channel::shared::channel;
-use futures_intrusive::sync::{Mutex, Semaphore};
+use futures_intrusive::sync::{Mutex, Semaphore, SharedSemaphore};
 use futures_intrusive::timer::{MockClock, Timer, TimerService};
 use std::future::Future;
 use std::pin::Pin;
@@ -64,7 +64,23 @@ pub fn thread_scenario() -> Result<(), String> {
     let (tx, rx) = channel::<Box<u64>>(1);
     let timer = Arc::new(TimerService::new(&CLOCK));
     let sent = Arc::new(AtomicU64::new(0));
+    // one shared-semaphore handle used by reference from two threads (no clone of the handle:
+    // its internal reference count stays at one while both threads call into it)
+    let shared_sem = Arc::new(SharedSemaphore::new(false, 2));
     let mut hs = Vec::new();
+    for _ in 0..2 {
+        let ss = shared_sem.clone();
+        hs.push(std::thread::spawn(move || {
+            for _ in 0..3 {
+                if let Some(mut r) = ss.try_acquire(1) {
+                    let n = r.disarm();
+                    std::thread::yield_now();
+                    ss.release(n);
+                }
+                let _ = ss.permits();
+            }
+        }));
+    }
     for t in 0..2u64 {
         let (mutex, sem, tx, sent) = (mutex.clone(), sem.clone(), tx.clone(), sent.clone());
         hs.push(std::thread::spawn(move || {
@@ -126,6 +142,9 @@ pub fn thread_scenario() -> Result<(), String> {
     }
     if mutex.is_locked() {
         return Err("mutex still locked".into());
+    }
+    if shared_sem.permits() != 2 {
+        return Err(format!("shared semaphore: {} permits, 2 expected", shared_sem.permits()));
     }
     Ok(())
 }
